@@ -211,11 +211,9 @@ func EnumerateC20(t *testing.T, c C20Case, every int, es *EnumStats) ([]C20Findi
 			time.Sleep(d)
 		}
 		ref = w.execOp(op, nil, true)
+		releaseContexts([]*Outcome{ref})
 	}); err != nil {
 		return nil, err
-	}
-	if ref.Polls > 0 && ref.Steps == 0 {
-		return nil, harnessf("polls observed but the step hook never ran: /repo built without -tags verif or hook line missing")
 	}
 	es.Cases++
 	var findings []C20Finding
@@ -270,6 +268,10 @@ func EnumerateC20(t *testing.T, c C20Case, every int, es *EnumStats) ([]C20Findi
 			}
 		}
 		return out
+	}
+	// M0: the context is already done when the entry point is called.
+	if err := try(Fault{Model: "pre", K: 0, Err: c.Err}); err != nil {
+		return nil, err
 	}
 	// M1: k = 0..N (k = N never fires: a control for the no-fault path).
 	for _, k := range idx(ref.Polls + 1) {
